@@ -22,7 +22,9 @@ NOTE = ["uuid.uuid5 is modelled over the driver's SHA-1; the harness recomputes 
 NAMES = ["nordicsemi.com", "nRF54H20_sample_root", "", "a", "é中\U0001f600", "x" * 1024, "name with space", "a.b-c_d", "UPPER", "123", "true", "a: b", "x #y", "p(1)+",
          # names are names, whatever they look like: text UUIDs, hex digests, numbers, leading / trailing blanks, mixed case
          "7d9f1e2a-4b3c-4d5e-8f60-a1b2c3d4e5f6", "7d9f1e2a4b3c4d5e8f60a1b2c3d4e5f6", "urn:uuid:7d9f1e2a-4b3c-4d5e-8f60-a1b2c3d4e5f6",
-         "{7d9f1e2a-4b3c-4d5e-8f60-a1b2c3d4e5f6}", "6ba7b810-9dad-11d1-80b4-00c04fd430c8", "0x10", " padded ", "NordicSemi.com", "0", "None", "a\\b"]
+         "{7d9f1e2a-4b3c-4d5e-8f60-a1b2c3d4e5f6}", "6ba7b810-9dad-11d1-80b4-00c04fd430c8", "0x10", " padded ", "NordicSemi.com", "0", "None", "a\\b",
+         # text that is not in Unicode normal form C is other text than its normalisation: decomposed accents, singletons (C13-q)
+         "mu\u0308ller.example", "\u212bngstro\u0308m-sensor", "10k\u2126", "\u212a-band", "e\u0301\u0301", "\ufb01rmware"]
 
 
 SPECIAL_PAIRS = [(("acme\u2028.example", "cls"), ("acme.example", "c\u0085ls")), (("a\x0bb.example", "c\x0cd"), ("x\x1cy", "z\x1e")), (("acme.example", "cl\u2029s"), ("acme.example", "cl\x1ds")),
@@ -64,7 +66,7 @@ def run(tier: str, seed: int) -> int:
     names = list(NAMES)
     for _ in range(40 if tier == "quick" else 3000):
         names.append("".join(rng.choice("abcXYZ019._- é中") for _ in range(rng.randrange(0, 40))))
-    pairs = [(rng.choice(names), rng.choice(names)) for _ in range(150 if tier == "quick" else 6000)] + [("nordicsemi.com", "nRF54H20_sample_root"), ("", "")]
+    pairs = [(rng.choice(names), rng.choice(names)) for _ in range(150 if tier == "quick" else 6000)] + [("nordicsemi.com", "nRF54H20_sample_root"), ("", "")] + [(nm, NAMES[(k + 1) % len(NAMES)]) for k, nm in enumerate(NAMES)]
     with tempfile.TemporaryDirectory(prefix="verif_c13_") as d:
         for i, (v, c) in enumerate(pairs):
             evid = rfc4122_v5(DNS, v)
